@@ -139,11 +139,18 @@ def check_chain(decays0, naming, perm_index=0):
     for perm in perms:
         dc = DecayChain(mother, {n: modes[n] for n in perm})
         d = dc.to_dict()
+        if dc.to_dict() != d:
+            fails.append(("chain-to_dict-not-repeatable", f"two calls of to_dict() on one chain differ: {plain_decays(decays)}"))
+            break
         if d != exp:
             fails.append(("chain-to_dict", f"to_dict() of chain {dict((n, dict(c)) for n, c in decays.items())} (mapping order {perm}) = {d}\nexpected {exp}"))
             break
         try:
-            dc2 = DecayChain.from_dict(copy.deepcopy(d))
+            arg = copy.deepcopy(d)
+            dc2 = DecayChain.from_dict(arg)
+            if arg != d:
+                fails.append(("from_dict-mutates-argument", f"from_dict changed the dictionary it was given: {d} -> {arg}"))
+                break
         except Exception as e:  # noqa: BLE001
             fails.append((f"chain-from_dict-exception:{type(e).__name__}", f"from_dict(to_dict()) raised {e!r} for chain {dict((n, dict(c)) for n, c in decays.items())}"))
             break
@@ -157,6 +164,10 @@ def check_chain(decays0, naming, perm_index=0):
             fails.append(("chain-roundtrip-dict", f"to_dict() of the round trip differs for chain {dict((n, dict(c)) for n, c in decays.items())}"))
             break
     return fails
+
+
+def plain_decays(decays):
+    return {n: dict(c) for n, c in decays.items()}
 
 
 def work_chains(args):
